@@ -166,11 +166,14 @@ package route
 // `deliveries` counts what left this function towards a sink: upstream queue, peer
 // queue, collector. (A span kept by stress relief is forwarded upstream inside
 // ProcessSpanImmediately.)
+// procErr(r): what the most recent processEvent on router r answered
+//@ ghost procErr(ref) error
 //@ contract route.(*Router).processEvent props C19,C16,C23,C17
 //@   assert owns
 //@   requires r != nil && ev != nil && owns(ev)
 //@   let e0 = ev
 //@   ghostupdate procN(r) :: procN(r) == old(procN(r)) + 1
+//@   ghostupdate[what-processing-answered@C23] procErr(r) :: procErr(r) == result
 //@   requires[distinct-sinks] toInt(refOf(r.UpstreamTransmission)) != toInt(refOf(r.PeerTransmission))
 //@   ensures[at-most-one-of-each] 0 <= enqN(r.UpstreamTransmission) - old(enqN(r.UpstreamTransmission)) && enqN(r.UpstreamTransmission) - old(enqN(r.UpstreamTransmission)) <= 1 && 0 <= enqN(r.PeerTransmission) - old(enqN(r.PeerTransmission)) && enqN(r.PeerTransmission) - old(enqN(r.PeerTransmission)) <= 1 && 0 <= addedN(r.Collector) - old(addedN(r.Collector)) && addedN(r.Collector) - old(addedN(r.Collector)) <= 1
 //@   ensures[one-data-route] (enqN(r.UpstreamTransmission) - old(enqN(r.UpstreamTransmission))) + (addedN(r.Collector) - old(addedN(r.Collector))) + ite(enqN(r.PeerTransmission) != old(enqN(r.PeerTransmission)) && !enqProbe(r.PeerTransmission), 1, 0) + (immN(r.Collector) - old(immN(r.Collector))) <= 1
@@ -217,7 +220,7 @@ package route
 //@   ensures[error-status-means-nothing-processed] statusWrites(w) != old(statusWrites(w)) ==> procN(r) == old(procN(r))
 //@   ensures[one-body] bodyWrites(w) == old(bodyWrites(w)) + 1
 //@   loop 1 invariant statusWrites(w) == old(statusWrites(w)) && bodyWrites(w) == old(bodyWrites(w)) && len(batchedResponses) == iter
-//@   modifies all(statusWrites), all(lastStatus), all(bodyWrites), all(procN), all(enqN), all(enqLast), all(enqHost), all(enqKey), all(enqDataset), all(enqProbe), all(owns), all(addedN), all(addedLast), all(bufN), all(immN), all(hdr)
+//@   modifies all(statusWrites), all(lastStatus), all(bodyWrites), all(procN), all(procErr), all(enqN), all(enqLast), all(enqHost), all(enqKey), all(enqDataset), all(enqProbe), all(owns), all(addedN), all(addedLast), all(bufN), all(immN), all(hdr)
 
 // One event of a batch: its response entry says 202 / 429 / 400 exactly according to what
 // processing that event returned.
@@ -228,7 +231,8 @@ package route
 //@   ensures[one-entry-per-event] len(batchedResponses) == old(len(batchedResponses)) + 1 && batchedResponses[len(batchedResponses)-1] == &resp
 //@   ensures[empty-events-are-not-processed] bev.Data.isEmpty ==> procN(r) == old(procN(r)) && err != nil
 //@   ensures[non-empty-events-processed-once] !bev.Data.isEmpty ==> procN(r) == old(procN(r)) + 1
-//@   modifies all(statusWrites), all(lastStatus), all(bodyWrites), all(procN), all(enqN), all(enqLast), all(enqHost), all(enqKey), all(enqDataset), all(enqProbe), all(owns), all(addedN), all(addedLast), all(bufN), all(immN), all(hdr)
+//@   ensures[the-entry-reports-what-processing-answered] !bev.Data.isEmpty && procN(r) == old(procN(r)) + 1 ==> resp.Status == ite(errors.Is(procErr(r), collect.ErrWouldBlock), 429, ite(procErr(r) != nil, 400, 202))
+//@   modifies all(statusWrites), all(lastStatus), all(bodyWrites), all(procN), all(procErr), all(enqN), all(enqLast), all(enqHost), all(enqKey), all(enqDataset), all(enqProbe), all(owns), all(addedN), all(addedLast), all(bufN), all(immN), all(hdr)
 
 //@ contract route.(*Router).event props C23 havocheap
 //@   requires r != nil && req != nil
@@ -237,7 +241,7 @@ package route
 //@   ensures[processed-at-most-once] procN(r) <= old(procN(r)) + 1
 //@   ensures[decode-failure-means-nothing-processed] procN(r) == old(procN(r)) ==> statusWrites(w) == old(statusWrites(w)) + 1
 //@   ensures[error-status-means-nothing-kept] statusWrites(w) != old(statusWrites(w)) ==> enqN(r.UpstreamTransmission) == old(enqN(r.UpstreamTransmission)) && enqN(r.PeerTransmission) == old(enqN(r.PeerTransmission)) && bufN(r.Collector) == old(bufN(r.Collector)) && immN(r.Collector) == old(immN(r.Collector))
-//@   modifies all(statusWrites), all(lastStatus), all(bodyWrites), all(procN), all(enqN), all(enqLast), all(enqHost), all(enqKey), all(enqDataset), all(enqProbe), all(owns), all(addedN), all(addedLast), all(bufN), all(immN), all(hdr)
+//@   modifies all(statusWrites), all(lastStatus), all(bodyWrites), all(procN), all(procErr), all(enqN), all(enqLast), all(enqHost), all(enqKey), all(enqDataset), all(enqProbe), all(owns), all(addedN), all(addedLast), all(bufN), all(immN), all(hdr)
 //@ contract route.(*batchedEvent).getSampleRate inline
 //@ assume route.(*Router).requestToEvent
 //@   ensures result1 == nil ==> result0 != nil && owns(result0) && isFresh(result0)
